@@ -11,7 +11,7 @@ class _RL(dict):
 UNIT_RLIMIT = _RL({"div_small": 80, "mul_redc": 80})      # unit -> --rlimit (Verus default is 10; 5x head-room over the measured maximum)
 UNIT_TIMEOUT = {"knuth": 1500, "addmul": 900, "mul_redc": 1200}     # unit -> seconds
 UNIT_EXPECT = {       # unit -> minimum number of verified functions on the unchanged tree (vacuity guard)
-    "core": 31, "add": 29, "kernels": 79, "addmul": 71, "addmul_n": 73, "mul": 51, "divd": 45, "div_small": 235, "knuth": 145, "mul_redc": 126, "basics": 22, "pow": 38, "divw": 54, "modular": 70, "spigot": 44, "gcd": 24, "forward": 57, "invring": 47, "bitlen": 70, "shifts": 131, "recip_table": 2, "gcdext": 67, "gcdw": 36, "bits": 78, "conv": 31, "lehmer": 37, "logs": 27, "forward_shift": 81, "fmt_consts": 5,
+    "core": 31, "add": 29, "kernels": 79, "addmul": 71, "addmul_n": 73, "mul": 51, "divd": 45, "div_small": 235, "knuth": 145, "mul_redc": 126, "basics": 22, "pow": 38, "divw": 54, "modular": 70, "spigot": 44, "gcd": 24, "forward": 57, "invring": 47, "bitlen": 70, "shifts": 131, "recip_table": 2, "gcdext": 67, "gcdw": 36, "bits": 78, "conv": 31, "lehmer": 38, "jebelean": 92, "logs": 27, "forward_shift": 81, "fmt_consts": 5,
 }
 
 COMMON_TRUST = [
@@ -354,30 +354,34 @@ PROPS = {
                    "and inv_mod (algorithms::inv_mod and the Uint wrapper): Some(x) with x < m and a*x = 1 (mod m) exactly when m >= 2 and gcd(a, m) = 1, None otherwise - through the Lehmer loop with the Euclidean fallback, "
                    "implicit-sign cofactor in wrapping arithmetic and the final sign patch",
         level_note="ASSUMED: one memory-layout fact in mul_mod (normalisation N19: the raw-pointer reinterpretation of `[[u64; 2]; LIMBS]` as a limb slice is replaced by a call whose contract says element 2i+j is store[i][j]); "
-                   "the Lehmer matrix contract of lib/lehmer.rs for operands above 64 bits (see C12); operators >=, %=, -=, >>=, /, *, + on Uint (C20); precondition BITS <= (usize::MAX - 63) / 2 (2*BITS is computed)",
+                   "operators >=, %=, -=, >>=, /, *, + on Uint (C20); the conversion plumbing inside LehmerMatrix::from/apply (see C12; the matrix construction itself is proved); precondition BITS <= (usize::MAX - 63) / 2 (2*BITS is computed)",
         technique="deductive contracts (Verus, all widths) + Kani at tiny widths as counterexample source",
-        units=["core", "basics", "add", "modular", "gcdext", "gcdw"],
+        units=["core", "basics", "add", "modular", "gcdext", "gcdw", "lehmer", "jebelean"],
         kani=dict(features=None, quick=hs("c10", None, r"gcd|lcm"), thorough=hs("c10", None, r"gcd|lcm"), bounds="tiny widths (2-8 bits) and reduced add_mod at 64..192 bits, see kani/src/c10.rs"),
         explanation="postconditions over val() with vstd's modular-arithmetic lemma library; inv_mod: ghost cofactor magnitudes T0 <= T1 with T1*a + T0*b = m, a = +-T0*n + ka*m, stored cofactors = signed values mod 2^BITS",
         trusted=COMMON_TRUST,
-        not_decided=["LehmerMatrix construction above 64 bits (assumed contract)"],
+        not_decided=[],
     ),
     "C12": dict(
-        level="other",
+        level="proof",
         level_text="Verus proves, for every width: the gcd loop (initial swap, Lehmer step via apply, Euclidean fallback, termination) returns Euclid's function sgcd, which is proved to be the greatest common divisor "
                    "(divides both; every common divisor divides it); gcd_extended returns g = gcd and cofactors with a*x - b*y = g (sign) resp. b*y - a*x = g modulo 2^BITS (exact integer Bezout rows, stored cofactors as residues, "
-                   "final negation and swap); lcm returns Some(a*b/gcd) exactly when that value is < 2^BITS (Some(0) if either is 0) and None otherwise; the Uint wrappers forward; LehmerMatrix::from_u64 (the extended Euclid on two words "
-                   "that `from` uses for operands of at most 64 bits) returns the identity for b = 0 and otherwise a matrix satisfying the whole Lehmer contract (exact map to a later remainder pair, determinant, row order, entries <= a, no word overflow); LehmerMatrix::apply evaluates the signed map modulo 2^BITS without panicking for such matrices. The loops are modular over the ASSUMED "
-                   "contract of LehmerMatrix::from (for operands above 64 bits: the prefix constructions), which contains the property's last sentence; Kani checks gcd/lcm/gcd_extended by enumeration at 3-4 bits",
-        level_note="the Lehmer matrix construction (from_u64, from_u64_prefix, from_u128_prefix, from: Jebelean's exactness conditions over up to 46 symbolic u64 divisions) is ASSUMED, not derived - a change inside matrix.rs "
-                   "is noticed only by the tiny-width Kani enumerations (which never reach the >64-bit prefix paths): hence level 'other', not 'proof'. lcm uses a declared rewrite of Option::unwrap_or_default to "
-                   "unwrap_or(<Uint as Default>::default()), with Default::default extracted and proved to be ZERO",
-        technique="deductive contracts for the loops and wrappers (Verus, all widths) relative to an assumed matrix contract + Kani enumeration at tiny widths",
-        units=["core", "gcd", "gcdext", "gcdw", "lehmer"],
-        kani=dict(features=None, quick=hs("c10", r"gcd|lcm"), thorough=hs("c10", r"gcd|lcm"), bounds="3-4 bits, all pairs"),
-        explanation="gcd: invariant gcd(a, b) = gcd(a0, b0), a >= b; decreases b. gcd_extended: a = S0*A + T0*B, b = S1*A + T1*B over the integers, stored s/t = S/T mod 2^BITS",
+                   "final negation and swap); lcm returns Some(a*b/gcd) exactly when that value is < 2^BITS (Some(0) if either is 0) and None otherwise; the Uint wrappers forward; and the property's last sentence itself: "
+                   "a Lehmer update matrix produced by LehmerMatrix::from for any a >= b is the identity or maps (a, b) exactly to a pair (c, d) with 0 <= d < c <= a, d < b, gcd(c, d) = gcd(a, b) (plus determinant +-1, "
+                   "row order and entry bounds) - proved through from's dispatch on the bit length, from_u64 (extended Euclid on two words), from_u128_prefix (normalisation to a 64-bit prefix) and from_u64_prefix "
+                   "(the word-level Lehmer loop with two 32-bit cofactors packed per word - no carry between the halves, no word overflow - and Jebelean's exactness conditions selecting matrix i, i+1 or i+2, "
+                   "for ALL full operands sharing the prefix); LehmerMatrix::apply evaluates the signed map modulo 2^BITS without panicking for such matrices",
+        level_note="ASSUMED: the conversions `x.try_into().unwrap()` to u64/u128 in `from` (named by declared rewrites; TryFrom<Uint> for primitives is C07, Kani per width), Uint::from(u64) in apply, the Uint operators "
+                   "used in the loops (>=, /, *, -, %=, >>: units forward / forward_shift + the proved inherent methods), u128::leading_zeros facts (Kani full domain), the derived == on Matrix; compose() (unused by from) is not covered. "
+                   "lcm uses a declared rewrite of Option::unwrap_or_default to unwrap_or(<Uint as Default>::default()), with Default::default extracted and proved to be ZERO. Kani enumerations at 3-4 bits serve as counterexample source",
+        technique="deductive contracts (Verus, all widths and all operand sizes) + Kani enumeration at tiny widths as counterexample source",
+        units=["core", "gcd", "gcdext", "gcdw", "lehmer", "jebelean"],
+        kani=dict(features=None, quick=hs("c10", r"gcd|lcm") + hs("core_specs", r"u128_leading"), thorough=hs("c10", r"gcd|lcm") + hs("core_specs", r"u128_leading"), bounds="3-4 bits, all pairs"),
+        explanation="gcd: invariant gcd(a, b) = gcd(a0, b0), a >= b; decreases b. gcd_extended: a = S0*A + T0*B, b = S1*A + T1*B over the integers, stored s/t = S/T mod 2^BITS. from_u64_prefix: a sliding window of four "
+                    "consecutive prefix remainders and cofactor pairs in one of two orientations (lemma_win_step), cofactors < 2^32 from the inverse identities yn*r3 + y3*rn = a0; Jebelean: with aa = a0*2^k + ta, "
+                    "c = ax*2^k + (ux*ta - vx*tb) >= ..., the tested inequalities give 0 <= d < c on the full numbers, the inverse map aa = vy*c + vx*d, bb = uy*c + ux*d gives c <= bb, the entry bounds and the equal gcd",
         trusted=COMMON_TRUST,
-        not_decided=["LehmerMatrix::from (dispatch) / from_u64_prefix / from_u128_prefix / compose (assumed contract; from_u64 and apply are proved)"],
+        not_decided=["LehmerMatrix::compose (not used by from)"],
     ),
     "C19": dict(
         level="other",
